@@ -1,0 +1,8 @@
+//go:build verif
+
+package fun
+
+import "github.com/goghcrow/yae/val"
+
+// VerifStringify exposes the conversion used by the string() built-in to the verification harness in /verif.
+func VerifStringify(v *val.Val) string { return stringify(v) }
